@@ -11,6 +11,7 @@ max(bomb limit, 2048 x compressed bytes) by more than one output buffer; no more
 """
 import json
 import os
+import re
 import sys
 import zlib
 
@@ -175,7 +176,9 @@ def scenarios(ctx):
     for reqb, tag in ((REQ, "get"), (POST, "post")):
         for bomb in (1000, 100000):
             res = frame(r, b"HTTP/1.1 200 OK\r\nContent-Encoding: gzip, gzip\r\n", outer, "cl")
-            for mode in ("whole", "rand"):
+            # "bytes": after the bomb is reported every further data call must deliver nothing more (finding S39: each call used to
+            # flush the stale output buffer again)
+            for mode in ("whole", "rand", "bytes"):
                 out.append({"kind": "bomb", "name": "bomb2/%s/%d/%s" % (tag, bomb, mode), "cfg": "respdecomp=1,ztime=1000000,bomb=%d" % bomb, "req": reqb,
                             "pieces": cuts(r, res, mode), "payload": pl, "valid": True, "compressed": outer, "framing": "cl", "close": False, "bomb": bomb})
     # ---- request decompression (htp_config_set_request_decompression): one layer, the same driver, its own accounting callback
@@ -213,6 +216,17 @@ def scenarios(ctx):
 def script_of(sc, traces=None):
     """side 'res' (default): the request whole, then the response in pieces; side 'req': the request in pieces (request decompression),
     then a plain response. `traces` = the recorded inflate results, one entry per data call of the coded side, in order."""
+    if sc.get("kind") == "raw":
+        # a script of the distilled decompression corpus: explicit data calls; the recorded results are appended to each of them
+        if traces is None:
+            return list(sc["lines"])
+        out_, k = [], 0
+        for l in sc["lines"]:
+            if l.startswith("conn req ") or l.startswith("conn res "):
+                out_.append(l + " " + traces[k]); k += 1
+            else:
+                out_.append(l)
+        return out_
     if sc.get("side") == "req":
         lines = ["conn new %s -" % sc["cfg"], "conn open", "conn zon"]
         for i, p in enumerate(sc["pieces"]):
@@ -240,6 +254,8 @@ def run(ctx, model_ok=True, proofs_broken=False):
     quick = ctx.tier == "quick"
     known = {f["signature"]: f for f in lib.known_findings()["findings"] if f["property"] == "C07"}
     scs = scenarios(ctx)
+    for i, ls in enumerate(lib.load_fuzz_corpus_z(ctx, 500, "C07")):
+        scs.append({"kind": "raw", "name": "fuzz/%d" % i, "lines": ls, "cfg": ls[0].split(" ")[2]})
     # ---- pass 1: implementation alone, record the inflate traces
     p1 = [script_of(sc) for sc in scs]
     co_all = []
@@ -266,7 +282,7 @@ def run(ctx, model_ok=True, proofs_broken=False):
         delivered = b""
         ends = 0
         msg_len = 0
-        coded = "conn req " if sc.get("side") == "req" else "conn res "
+        coded = ("conn req ", "conn res ") if sc["kind"] == "raw" else (("conn req ",) if sc.get("side") == "req" else ("conn res ",))
         for l, o in zip(lines, outs):
             if l.startswith(coded):
                 zt = "-"
@@ -326,9 +342,22 @@ def run(ctx, model_ok=True, proofs_broken=False):
             if len(delivered) > bound:
                 # known finding: with two layers, the buffer of the OUTER layer that was ended by the bomb is still flushed to the callback at the
                 # end of the stream (raw, less than one buffer): attributed only when the excess is below one buffer in a layered chain
-                stale = sc["name"].startswith("bomb2/") and len(delivered) - bound < BUF
-                note("bomb-stale-flush" if stale else "bomb-over-bound", {"script": lines, "what": "%s: %d bytes delivered; bound max(%d, 2048 x %d) + %d = %d" % (
+                note("bomb-over-bound", {"script": lines, "what": "%s: %d bytes delivered; bound max(%d, 2048 x %d) + %d = %d" % (
                     sc["name"], len(delivered), sc["bomb"], comp_len, BUF, bound)})
+        if sc["kind"] == "raw":
+            # "for every input": per transaction and side, delivered (entity) bytes stay within max(limit, 2048 x wire bytes) + one buffer
+            m_ = re.search(r"bomb=(\d+)", sc["cfg"])
+            limit = int(m_.group(1)) if m_ else 1048576
+            for t_ in slots or []:
+                if not t_:
+                    continue
+                for ek, mk, side in (("sel", "sml", "response"), ("el", "ml", "request")):
+                    ent, msg = int(t_.get(ek, 0)), int(t_.get(mk, 0))
+                    bound = max(limit, RATIO * msg) + BUF
+                    if ent > msg and ent > bound:
+                        note("bomb-over-bound", {"script": lines, "what": "%s: %s entity %d bytes for %d on the wire; bound max(%d, 2048 x %d) + %d = %d" % (
+                            sc["name"], side, ent, msg, limit, msg, BUF, bound)})
+            continue
         elk = "el" if sc.get("side") == "req" else "sel"
         if t and int(t.get(elk, 0)) != len(delivered):
             note("entity-len", {"script": lines, "what": "%s: entity_len=%s but %d bytes were delivered" % (sc["name"], t.get(elk), len(delivered))})
